@@ -447,6 +447,11 @@ def raw_write_extents(F, S):
                 elif mrec.startswith("std::vector<"):
                     er = element_record(F, mrec)
                     es = (F.record(er)["size_bits"] // 8) if er else None
+                    if es is None:
+                        # scalar elements
+                        inner = mrec[len("std::vector<"):].split(",")[0].strip().rstrip(">").strip()
+                        es = {"unsigned char": 1, "char": 1, "signed char": 1, "unsigned short": 2, "short": 2, "unsigned int": 4, "int": 4,
+                              "unsigned long": 8, "long": 8}.get(inner)
                     if es:
                         ext, what = ("op", "*", ("size", pt[2]), ("const", es)), "size() * %d" % es
             elif pt[0] == "un" and pt[1] == "&" and pt[2][0] == "idx":
